@@ -42,11 +42,12 @@ def _cross(a, b, p):
     return (b.re - a.re) * (p.im - a.im) - (b.im - a.im) * (p.re - a.re)
 
 
-@obligation("rectangle/containment_iff_inside_own_vertices", timeout=300,
+@obligation("rectangle/containment_iff_inside_own_vertices", params=[{"moved": False}, {"moved": True}], timeout=150,
             desc="Rectangle(first, second, rotation) with symbolic corners, rotation and query point: is_point_inside_shape(p) is True iff p "
                  "lies in the convex quadrilateral of the shape's own vertices (all four edge half-planes, boundary inclusive); both the "
-                 "rotation == 0 and != 0 paths")
-def ob_rect():
+                 "rotation == 0 and != 0 paths; moved: the same after pos = q (symbolic) - the rectangle is then the original one "
+                 "translated by q - pos")
+def ob_rect(moved=False):
     def body(c, it):
         from pyphysim.cell import shapes
         a, b, p = c.var("a", "complex"), c.var("b", "complex"), c.var("p", "complex")
@@ -54,6 +55,12 @@ def ob_rect():
         c.inputs.update(a=a, b=b, p=p, rot=rot)
         c.assume((a.re < b.re) & (a.im < b.im))
         r = it.call(shapes.Rectangle, [a, b, rot])
+        if moved:
+            q = c.var("q", "complex")
+            c.inputs.update(q=q)
+            delta = sym.to_complex(q) - sym.to_complex(it.getattr(r, "pos"))
+            it.setattr(r, "pos", q)
+            a, b = sym.to_complex(a) + delta, sym.to_complex(b) + delta       # the spec rectangle: translated corners
         inside = it.call(it.getattr(r, "is_point_inside_shape"), [p])
         v = it.getattr(r, "vertices")
         goals = [Goal("four vertices", np.shape(v) == (4,))]
@@ -92,11 +99,17 @@ def ob_rect():
         except Exception:
             a, b = complex(-2, -1), complex(2, 1)
         rr = np.random.RandomState(0)
-        for rot in (float(mv.get("rot", 90.0) or 90.0), 90.0, 30.0, -45.0):
+        for rot in (float(mv.get("rot", 90.0) or 90.0), 90.0, 30.0, -45.0, 0.0):
             r = shapes.Rectangle(a, b, rot)
+            if moved:
+                v0 = r.vertices.copy()
+                r.pos = r.pos + (3 - 2j)
+                if not np.abs(r.vertices - (v0 + (3 - 2j))).max() <= 1e-9:
+                    return {"confirmed": True, "corners": [str(a), str(b)], "rotation": rot, "moved by": "3-2j",
+                            "vertices before": [str(x) for x in v0], "vertices after": [str(x) for x in r.vertices]}
             v = r.vertices
             for _ in range(400):
-                p = complex(rr.uniform(-4, 4), rr.uniform(-4, 4))
+                p = complex(rr.uniform(-4, 4), rr.uniform(-4, 4)) + ((3 - 2j) if moved else 0)
                 cr = [((v[(i + 1) % 4] - v[i]).conjugate() * (p - v[i])).imag for i in range(4)]
                 if min(abs(x) for x in cr) < 1e-9:
                     continue
@@ -105,7 +118,7 @@ def ob_rect():
                     return {"confirmed": True, "corners": [str(a), str(b)], "rotation": rot, "point": str(p),
                             "is_point_inside_shape": bool(r.is_point_inside_shape(p)), "inside own vertices": want}
         return {"confirmed": False}
-    return verify(body, replay=rp, check_side=False, timeout_ms=60000)
+    return verify(body, replay=rp, check_side=False, timeout_ms=20000)
 
 
 @obligation("circle/containment_and_border_point",
@@ -197,6 +210,51 @@ def _rot_grid():
     return list(range(-720, 721, step)) + [0.5, 33.3, -17.25]
 
 
+@obligation("cell/moves_carry_users_and_sectors", params=[{"cls": k, "move": m} for k in ("Cell", "CellSquare", "Cell3Sec")
+                                                         for m in ("pos_setter", "relative", "relative_polar")], timeout=200,
+            desc="frame of moving a populated cell: after cell.pos = q, move_by_relative_coordinate(d) or "
+                 "move_by_relative_polar_coordinate(r, a) (symbolic everything) the cell is at the new position, every associated user "
+                 "has moved by exactly the same vector (so it keeps its place inside the cell), and the sectors of a Cell3Sec are where "
+                 "_calc_sectors_positions puts them for the new position")
+def ob_moves(cls, move):
+    def body(c, it):
+        from pyphysim.cell import cell as cm
+        from pyphysim.cell import shapes
+        pos, q, d = c.var("pos", "complex"), c.var("q", "complex"), c.var("d", "complex")
+        rad = c.var("radius", "real")
+        c.assume(rad > 0)
+        o = it.call(getattr(cm, cls), [pos, rad, 7, 0.0])
+        users = []
+        for i in range(2):
+            u = it.call(cm.Node, [c.var("u%d" % i, "complex")])
+            it.call(cm.AccessPoint.add_user, [o, u])          # association only: where the user sits inside the cell is irrelevant here
+            users.append(u)
+        before = [sym.to_complex(it.getattr(u, "pos")) for u in users]
+        secs0 = None
+        if cls == "Cell3Sec":
+            secs0 = [sym.to_complex(it.getattr(it.getattr(o, "_sec%d" % k), "pos")) for k in (1, 2, 3)]
+        if move == "pos_setter":
+            it.setattr(o, "pos", q)
+            delta = sym.to_complex(q) - sym.to_complex(pos)
+        elif move == "relative":
+            it.call(it.getattr(o, "move_by_relative_coordinate"), [d])
+            delta = sym.to_complex(d)
+        else:
+            r, a = c.var("r", "real"), c.var("a", "real")
+            it.call(it.getattr(o, "move_by_relative_polar_coordinate"), [r, a])
+            delta = sym.SComplex(r * a.cos(), r * a.sin())
+        newpos = sym.to_complex(it.getattr(o, "pos"))
+        goals = [Goal("cell is at the new position", newpos == sym.to_complex(pos) + delta)]
+        for i, u in enumerate(users):
+            goals.append(Goal("user %d moved by the same vector" % i, sym.to_complex(it.getattr(u, "pos")) == before[i] + delta))
+        if secs0 is not None:
+            for k in (1, 2, 3):
+                now = sym.to_complex(it.getattr(it.getattr(o, "_sec%d" % k), "pos"))
+                goals.append(Goal("sector %d moved with the cell" % k, now == secs0[k - 1] + delta))
+        return goals
+    return verify(body, check_side=False)
+
+
 @obligation("native/shapes_containment_and_border", kind="bounded", timeout=1500,
             desc="hexagon / rectangle / circle x positions x radii over 4 decades x rotations in [-720,720]: is_point_inside_shape agrees "
                  "with the polygon (disc) of the shape's own vertices on random points (edge band 1e-9 excluded); border point for angles on "
@@ -219,7 +277,7 @@ def ob_native_shapes():
             sh = shapes.Hexagon(pos, rad, rot)
         elif case["kind"] == "rect":
             w = h = rad * rr.uniform(0.3, 1)          # squares here; non-square border points: native/rectangle_non_square_border_point
-            if rr.rand() < 0.5:
+            if (not (rr.rand() >= 0.5)):
                 hh = rad * rr.uniform(0.3, 1)
                 shc = shapes.Rectangle(pos - w - 1j * hh, pos + w + 1j * hh, rot)
                 vc = shc.vertices
@@ -238,7 +296,7 @@ def ob_native_shapes():
             p = pos + rad * 1.3 * complex(rr.uniform(-1, 1), rr.uniform(-1, 1))
             got = bool(sh.is_point_inside_shape(p))
             if case["kind"] == "circle":
-                if abs(abs(p - pos) - rad) < 1e-9 * rad:
+                if (not (abs(abs(p - pos) - rad) >= 1e-9 * rad)):
                     continue
                 want = abs(p - pos) < rad
             else:
@@ -260,10 +318,10 @@ def ob_native_shapes():
                     return {"shape": case["kind"], "rotation": rot, "angle": float(ang), "border point not on the boundary": str(full)}
                 d = (full - pos) / abs(full - pos)
                 want_dir = np.exp(1j * np.pi * ang / 180)
-                if abs(d - want_dir) > 1e-7:
+                if (not (abs(d - want_dir) <= 1e-7)):
                     return {"shape": case["kind"], "rotation": rot, "angle": float(ang), "direction": [str(d), str(want_dir)]}
                 rt = 1.0 if ratio is None else ratio
-                if abs(bp - (pos + rt * (full - pos))) > 1e-9 * rad:
+                if (not (abs(bp - (pos + rt * (full - pos))) <= 1e-9 * rad)):
                     return {"shape": case["kind"], "rotation": rot, "angle": float(ang), "ratio": ratio,
                             "border point": str(bp), "expected": str(pos + rt * (full - pos))}
         return None
@@ -271,7 +329,8 @@ def ob_native_shapes():
 
 
 @obligation("native/users_inside_cells", kind="bounded", timeout=1500,
-            desc="Cell, CellSquare, Cell3Sec (also after changing radius / rotation / pos through the setters): add_random_user(s) with "
+            desc="Cell, CellSquare, Cell3Sec (also after changing radius / rotation / pos through the setters and after moving the populated "
+                 "cell with pos = / move_by_relative_coordinate / move_by_relative_polar_coordinate): add_random_user(s) with "
                  "min_dist_ratio, add_random_users_in_sector, add_border_user incl. ratio 0 and 1: every user inside the polygon of the "
                  "cell's own vertices, at least ratio*radius from the centre; border users on the ray at ratio * boundary distance")
 def ob_native_users():
@@ -301,18 +360,28 @@ def ob_native_users():
         else:
             ce = cm.Cell3Sec(pos, rad, 1, rot)
             for _ in range(int(rr.randint(0, 3))):
-                w = rr.randint(3)
+                w = rr.randint(4)
                 if w == 0:
                     ce.radius = float(rad * rr.uniform(0.2, 2))
                 elif w == 1:
                     ce.rotation = float(rr.uniform(-90, 90))
-                else:
+                elif w == 2:
                     ce.pos = complex(rr.uniform(-20, 20), rr.uniform(-20, 20))
+                else:
+                    ce.move_by_relative_coordinate(complex(rr.uniform(-20, 20), rr.uniform(-20, 20)))
         md = float(rr.choice([0.0, 0.3, 0.6]))
         ce.add_random_users(8, None, md)
         if case["kind"] == "3sec":
             for sct in (1, 2, 3):
                 ce.add_random_users_in_sector(5, sct)
+        # a populated cell may be moved: its users (and sectors) move with it
+        mv = case["seed"] % 4
+        if mv == 1:
+            ce.move_by_relative_coordinate(complex(rr.uniform(-20, 20), rr.uniform(-20, 20)))
+        elif mv == 2:
+            ce.move_by_relative_polar_coordinate(float(rr.uniform(0, 30)), float(rr.uniform(-4, 4)))
+        elif mv == 3:
+            ce.pos = complex(rr.uniform(-20, 20), rr.uniform(-20, 20))
         v = ce.vertices
         for u in ce.users:
             if case["kind"] == "3sec":
@@ -325,12 +394,12 @@ def ob_native_users():
                     a, b = v[i], v[(i + 1) % len(v)]
                     if (a.imag > y) != (b.imag > y):
                         xi = a.real + (y - a.imag) * (b.real - a.real) / (b.imag - a.imag)
-                        if xi > x:
+                        if (not (xi <= x)):
                             cnt += 1
                 inside_outline = cnt % 2 == 1
                 dmin = min(abs(u.pos - (a + min(max(((u.pos - a) * (b - a).conjugate()).real / abs(b - a) ** 2, 0), 1) * (b - a)))
                            for a, b in zip(v, np.roll(v, -1)))
-                if not inside_outline and dmin > 1e-9 * ce.radius:
+                if not inside_outline and (not (dmin <= 1e-9 * ce.radius)):
                     return {"3-sector cell: user outside the cell's own vertices": str(u.pos), "pos": str(ce.pos), "radius": ce.radius,
                             "rotation": ce.rotation}
             else:
@@ -338,7 +407,7 @@ def ob_native_users():
                 if m is False:
                     return {"user outside the cell": str(u.pos), "kind": case["kind"], "rotation": rot}
         for u in ce.users[:8]:
-            if abs(u.pos - ce.pos) < md * ce.radius * (1 - 1e-12):
+            if (not (abs(u.pos - ce.pos) >= md * ce.radius * (1 - 1e-12))):
                 return {"user closer than min_dist_ratio*radius": [abs(u.pos - ce.pos), md * ce.radius]}
         if case["kind"] != "3sec":
             for ang in (0.0, 10.0, 90.0, 200.0):
@@ -348,7 +417,7 @@ def ob_native_users():
                     u = ce.users[-1]
                     full = ce.get_border_point(ang, 1.0)
                     want = ce.pos + min(ratio, 1 - 1e-15) * (full - ce.pos)
-                    if ce.num_users != n0 + 1 or abs(u.pos - want) > 1e-9 * ce.radius:
+                    if ce.num_users != n0 + 1 or (not (abs(u.pos - want) <= 1e-9 * ce.radius)):
                         return {"border user": str(u.pos), "expected": str(want), "angle": ang, "ratio": ratio}
         return None
     return bounded(gen(), check)
@@ -384,28 +453,28 @@ def ob_native_cluster():
         P = np.array([c_.pos for c_ in cells])
         v0 = cells[0].vertices - cells[0].pos
         for c_ in cells[1:]:
-            if np.abs((c_.vertices - c_.pos) - v0).max() > 1e-9 * rad:
+            if (not (np.abs((c_.vertices - c_.pos) - v0).max() <= 1e-9 * rad)):
                 return {"cells not congruent": True}
-        if case["n"] > 1:
+        if (not (case["n"] <= 1)):
             D = np.abs(P.reshape(-1, 1) - P.reshape(1, -1))
             np.fill_diagonal(D, np.inf)
             step = rad if case["type"] == "square" else 2 * rad * math.sqrt(3) / 2
-            if abs(D.min() - step) > 1e-9 * rad:
+            if (not (abs(D.min() - step) <= 1e-9 * rad)):
                 return {"closest centres": float(D.min()), "expected": step, "n": case["n"], "type": case["type"], "rot": case["rot"]}
             if np.any(np.abs(D.min(axis=1) - step) > 1e-9 * rad):
                 return {"a cell has no neighbour at the lattice distance": True}
         # rotation about the cluster position preserves mutual distances: compare with the unrotated cluster
         cl0 = cm.Cluster(rad, case["n"], pos, None, case["type"], 0.0)
         P0 = np.array([c_.pos for c_ in cl0])
-        if np.abs(np.abs(P.reshape(-1, 1) - P.reshape(1, -1)) - np.abs(P0.reshape(-1, 1) - P0.reshape(1, -1))).max() > 1e-8 * rad:
+        if (not (np.abs(np.abs(P.reshape(-1, 1) - P.reshape(1, -1)) - np.abs(P0.reshape(-1, 1) - P0.reshape(1, -1))).max() <= 1e-8 * rad)):
             return {"rotation changed mutual distances": case["rot"]}
-        if np.abs(np.abs(P - pos) - np.abs(P0 - pos)).max() > 1e-8 * rad:
+        if (not (np.abs(np.abs(P - pos) - np.abs(P0 - pos)).max() <= 1e-8 * rad)):
             return {"rotation is not about the cluster position": case["rot"]}
         cl.add_random_users(None, 2)
         users = cl.get_all_users()
         M = cl.calc_dist_all_users_to_each_cell_no_wrap_around()
         want = np.abs(np.array([u.pos for u in users]).reshape(-1, 1) - P.reshape(1, -1))
-        if M.shape != want.shape or np.abs(M - want).max() > 1e-12 * max(1.0, np.abs(want).max()):
+        if M.shape != want.shape or (not (np.abs(M - want).max() <= 1e-12 * max(1.0, np.abs(want).max()))):
             return {"distance matrix": True}
         return None
     res = bounded(gen(), check)
@@ -431,7 +500,7 @@ def ob_rect_border():
         for ang in np.arange(-180, 180, 2.5):
             bp = sh.get_border_point(float(ang), 1.0)
             d = (bp - sh.pos) / abs(bp - sh.pos)
-            if not _on_boundary(v, bp, 1e-9) or abs(d - np.exp(1j * np.pi * ang / 180)) > 1e-7:
+            if not _on_boundary(v, bp, 1e-9) or (not (abs(d - np.exp(1j * np.pi * ang / 180)) <= 1e-7)):
                 return {"angle": float(ang), "border point": str(bp), "not on the boundary / wrong direction": True}
         return None
     return bounded([{"rot": 0.0}], check)
